@@ -53,7 +53,7 @@ package zlib
 
 //@ func (*Writer).Close
 //@   requires zwOK(z)
-//@   modifies *z, **z.compressor, extWrites
+//@   modifies *z, **z.compressor, extWrites, lastSum32
 //@   ensures[C16 inv] zwOK(z)
 //@   ensures[C14 C16 sticky-in] old(z.err) != nil ==> result == old(z.err) && extWrites == old(extWrites) && same(z.err)
 //@   ensures[C14 sticky-out] result != nil ==> z.err == result
